@@ -195,3 +195,22 @@ def run(F, rep, tier):
                               wrapped, "calls typed_literal" if conv else "does not call typed_literal", sorted(plain)),
                           sample={"arm": "TypedInteger", "rewrapped_as": wrapped, "plain_digit_variant": sorted(plain)})
         rep.floor("C13-R6", "TypedInteger arms in real()", found, 1)
+    # ---- R7: based literals are parsed in the integer type of the value they build, with no cast in between
+    rep.rule("C13-R7", "based-literal evaluators parse with <T>::from_str_radix where T is the payload type of the Value variant they return, and do not cast the result "
+                       "(parsing as u64 and casting to i64 turns 0xffffffffffffffff into -1 instead of rejecting it)")
+    n7 = 0
+    for name, it in sorted(lit.items()):
+        calls = [c for c in find(it["body"], "call") if (path_of(c[1]) or "").endswith("::from_str_radix")]
+        if not calls:
+            continue
+        built = {re.match(r"^Value::(\w+)$", x[1]).group(1) for x in find(it["body"], "path") if re.match(r"^Value::(\w+)$", x[1])}
+        for c in calls:
+            n7 += 1
+            ty = path_of(c[1]).split("::")[-2]
+            casts = [x for x in find(it["body"], "cast") if any(y is c for y in walk(x))]
+            want = {b.lower() for b in built}
+            ok = ty in want and not casts
+            rep.check(ok, "C13-R7", "%s:parse-type" % name,
+                      "%s(): digits are parsed with %s::from_str_radix%s but the function builds Value::%s: a literal outside that type's range becomes an unrelated value instead of being rejected" % (
+                          name, ty, " and cast with `as`" if casts else "", "/".join(sorted(built))), sample={"fn": name, "parsed_as": ty, "builds": sorted(built)})
+    rep.floor("C13-R7", "from_str_radix call sites in the literal evaluators", n7, 4)
